@@ -45,6 +45,42 @@ def loaderItem (nx ny b idx : Nat) : List Nat × List Nat :=
 def loaderBatches (nx ny b : Nat) : Option (List (List Nat × List Nat)) :=
   (loaderLen ny b).map (fun len => (List.range len).map (loaderItem nx ny b))
 
+/-- the loader object with its cursor (`self.step`): `__iter__` rewinds, `__next__` yields the batch under
+    the cursor and advances, or stops (inner `none`) at the end; the outer `none` is Python raising
+    (`batch_size = 0`) -/
+structure Loader where
+  nx : Nat
+  ny : Nat
+  b : Nat
+  step : Nat
+deriving Repr
+
+def Loader.iter (l : Loader) : Loader := { l with step := 0 }
+
+def Loader.next (l : Loader) : Option (Option (List Nat × List Nat) × Loader) :=
+  (loaderLen l.ny l.b).map (fun len =>
+    if l.step < len then (some (loaderItem l.nx l.ny l.b l.step), { l with step := l.step + 1 }) else (none, l))
+
+/-- the body of a `for` loop that is abandoned (`break`) after at most `k` items: the items it saw -/
+def Loader.consume : Nat → Loader → Option (List (List Nat × List Nat) × Loader)
+  | 0, l => some ([], l)
+  | k + 1, l =>
+    match l.next with
+    | none => none
+    | some (none, l') => some ([], l')
+    | some (some it, l') => (Loader.consume k l').map (fun r => (it :: r.1, r.2))
+
+/-- `for item in loader: … break after k items` = `iter` then `consume` -/
+def Loader.forLoop (l : Loader) (k : Nat) : Option (List (List Nat × List Nat) × Loader) := l.iter.consume k
+
+/-- a program of successive `for` loops over one loader object, each abandoned after at most `k_i` items -/
+def Loader.loops : List Nat → Loader → Option (List (List (List Nat × List Nat)))
+  | [], _ => some []
+  | k :: ks, l =>
+    match l.forLoop k with
+    | none => none
+    | some (its, l') => (Loader.loops ks l').map (its :: ·)
+
 /-- insert into a strictly increasing list, dropping duplicates -/
 def insertUniq (y : Int) : List Int → List Int
   | [] => [y]
